@@ -55,7 +55,7 @@ class Inconclusive(BaseException):
 
 
 _mon = getattr(sys, "monitoring", None)
-_TOOL = 2  # sys.monitoring.PROFILER_ID
+_TOOL = 4  # a free sys.monitoring tool id (0 debugger, 1 coverage, 2 profiler, 3 hypothesis, 5 optimizer)
 _fuel = {"left": 0, "start": 0, "active": False, "ready": False}
 _counted_cache: dict = {}
 
